@@ -5,19 +5,24 @@ package plog
 import (
 	"encoding/hex"
 	"fmt"
+	"reflect"
 	"sort"
+	"strconv"
 	"strings"
 	"testing"
 
+	"go.opentelemetry.io/collector/pdata/internal"
+	otlpcommon "go.opentelemetry.io/collector/pdata/internal/data/protogen/common/v1"
 	"go.opentelemetry.io/collector/pdata/pcommon"
 )
 
 // Tree harness: random programs of public operations at random positions of 2-3 plog.Logs payloads
 // (resource/scope/record slices and messages, attribute maps, values, value slices, byte slices),
 // checked after EVERY step against a plain-Go reference model: trees with assignment semantics.
-// copy / move / move-and-append / remove / remove-if / append are computed on the reference alone;
-// for plain setters (Set*, Put*, FromRaw) only the target's own subtree is re-read from the
-// implementation, everything else is held to the reference (so aliasing shows as an unrelated change).
+// Every op (copy / move / move-and-append / remove / remove-if / append AND the plain setters Set*,
+// Put*, FromRaw, Clear, bytes append) is computed on the reference alone from its arguments; nothing is
+// ever re-read from the implementation, so a wrong result on the target itself and aliasing (an
+// unrelated change) both show.
 
 type t7node struct {
 	leaf  string
@@ -279,47 +284,78 @@ type t7rnd interface{ IntN(int) int }
 
 var t7keys = []string{"a", "b", "c", "d", "e"}
 
-// t7setVal applies a plain setter to a value (target-only op)
-func t7setVal(r t7rnd, v pcommon.Value) string {
+// t7setVal applies a plain setter to a value and returns the node the REFERENCE expects afterwards,
+// computed from the drawn arguments alone (old = the reference node before; nil when filling).
+func t7setVal(r t7rnd, v pcommon.Value, old *t7node) (string, *t7node) {
+	intNode := func(x int) *t7node { return &t7node{leaf: fmt.Sprint("Int:", x)} }
 	switch r.IntN(9) {
 	case 0:
-		v.SetStr(fmt.Sprint("s", r.IntN(50)))
-		return "setstr"
+		x := r.IntN(50)
+		v.SetStr(fmt.Sprint("s", x))
+		return "setstr", &t7node{leaf: fmt.Sprint("Str:s", x)}
 	case 1:
-		v.SetInt(int64(r.IntN(50)))
-		return "setint"
+		x := r.IntN(50)
+		v.SetInt(int64(x))
+		return "setint", intNode(x)
 	case 2:
-		v.SetBool(r.IntN(2) == 0)
-		return "setbool"
+		b := r.IntN(2) == 0
+		v.SetBool(b)
+		return "setbool", &t7node{leaf: fmt.Sprint("Bool:", b)}
 	case 3:
-		v.SetDouble(float64(r.IntN(50)) / 2)
-		return "setdouble"
+		x := r.IntN(50)
+		v.SetDouble(float64(x) / 2)
+		return "setdouble", &t7node{leaf: "Double:" + strconv.FormatFloat(float64(x)/2, 'f', -1, 64)}
 	case 4:
 		m := v.SetEmptyMap()
+		mn := &t7node{leaf: "M", isMap: true}
 		for i := r.IntN(3); i > 0; i-- {
-			m.PutInt(t7keys[r.IntN(len(t7keys))], int64(r.IntN(50)))
+			k, x := t7keys[r.IntN(len(t7keys))], r.IntN(50)
+			m.PutInt(k, int64(x))
+			t7refPut(mn, k, intNode(x))
 		}
-		return "setmap"
+		return "setmap", &t7node{leaf: "map", kids: []*t7node{mn}}
 	case 5:
 		s := v.SetEmptySlice()
+		sn := &t7node{leaf: "S"}
 		for i := r.IntN(3); i > 0; i-- {
-			s.AppendEmpty().SetInt(int64(r.IntN(50)))
+			x := r.IntN(50)
+			s.AppendEmpty().SetInt(int64(x))
+			sn.kids = append(sn.kids, intNode(x))
 		}
-		return "setslice"
+		return "setslice", &t7node{leaf: "slice", kids: []*t7node{sn}}
 	case 6:
-		v.SetEmptyBytes().FromRaw([]byte{byte(r.IntN(200)), byte(r.IntN(200))})
-		return "setbytes"
+		b := []byte{byte(r.IntN(200)), byte(r.IntN(200))}
+		v.SetEmptyBytes().FromRaw(b)
+		return "setbytes", &t7node{leaf: "bytes:" + hex.EncodeToString(b)}
 	case 7:
 		if v.Type() == pcommon.ValueTypeBytes {
-			v.Bytes().Append(byte(r.IntN(200)))
-			return "bytesappend"
+			b := byte(r.IntN(200))
+			v.Bytes().Append(b)
+			leaf := "bytes:" + hex.EncodeToString(append(v.Bytes().AsRaw()[:0:0], v.Bytes().AsRaw()...))
+			if old != nil {
+				leaf = old.leaf + hex.EncodeToString([]byte{b})
+			}
+			return "bytesappend", &t7node{leaf: leaf}
 		}
-		v.SetInt(int64(r.IntN(50)))
-		return "setint"
+		x := r.IntN(50)
+		v.SetInt(int64(x))
+		return "setint", intNode(x)
 	default:
 		_ = v.FromRaw(nil)
-		return "fromrawnil"
+		return "fromrawnil", &t7node{leaf: "Empty:"}
 	}
+}
+
+// t7refPut: reference semantics of Map.Put*: replace the entry with that key or add one
+func t7refPut(m *t7node, key string, val *t7node) {
+	val.key = key
+	for i, k := range m.kids {
+		if k.key == key {
+			m.kids[i] = val
+			return
+		}
+	}
+	m.kids = append(m.kids, val)
 }
 
 type t7state struct {
@@ -342,7 +378,7 @@ func t7fill(r t7rnd, ld Logs) {
 		rl := ld.ResourceLogs().AppendEmpty()
 		rl.SetSchemaUrl(fmt.Sprint("u", r.IntN(9)))
 		for j := r.IntN(3); j > 0; j-- {
-			t7setVal(r, rl.Resource().Attributes().PutEmpty(t7keys[r.IntN(len(t7keys))]))
+			t7setVal(r, rl.Resource().Attributes().PutEmpty(t7keys[r.IntN(len(t7keys))]), nil)
 		}
 		for j := r.IntN(3); j > 0; j-- {
 			sl := rl.ScopeLogs().AppendEmpty()
@@ -350,9 +386,9 @@ func t7fill(r t7rnd, ld Logs) {
 			for k := r.IntN(4); k > 0; k-- {
 				lr := sl.LogRecords().AppendEmpty()
 				lr.SetTimestamp(pcommon.Timestamp(r.IntN(99)))
-				t7setVal(r, lr.Body())
+				t7setVal(r, lr.Body(), nil)
 				for l := r.IntN(4); l > 0; l-- {
-					t7setVal(r, lr.Attributes().PutEmpty(t7keys[r.IntN(len(t7keys))]))
+					t7setVal(r, lr.Attributes().PutEmpty(t7keys[r.IntN(len(t7keys))]), nil)
 				}
 			}
 		}
@@ -400,11 +436,6 @@ func (st *t7state) t7step(r t7rnd, stat map[string]int) (res t7result, ok bool) 
 			}
 		}
 		return false
-	}
-	refresh := func(c t7cur) { // target-only re-read
-		n := t7dump(c.kind, c.real)
-		n.key = c.ref.key
-		*c.ref = *n
 	}
 	isSlice := t7elem[x.kind] != ""
 	choice := r.IntN(100)
@@ -578,65 +609,91 @@ func (st *t7state) t7step(r t7rnd, stat map[string]int) (res t7result, ok bool) 
 		if !willPanic(res.mutTops...) {
 			x.ref.kids = append(x.ref.kids, t7empty(t7elem[x.kind]))
 		}
-	default: // plain setter on the target (target-only re-read)
+	default: // plain setter on the target: the expected subtree is computed from the arguments alone
 		res = t7result{targets: []t7cur{x}, mutTops: []int{x.top}}
-		var before *t7node
-		if x.kind == "val" {
-			before = t7clone(x.ref)
-		}
+		before := t7clone(x.ref)
+		exp := t7clone(x.ref)
 		run(func() {
 			switch x.kind {
 			case "rl":
 				res.name = "set-rl"
-				x.real.(ResourceLogs).SetSchemaUrl(fmt.Sprint("u", r.IntN(9)))
-				x.real.(ResourceLogs).Resource().SetDroppedAttributesCount(uint32(r.IntN(9)))
+				u, d := r.IntN(9), r.IntN(9)
+				exp.leaf = fmt.Sprintf("rl url=%q dr=%d", fmt.Sprint("u", u), d)
+				x.real.(ResourceLogs).SetSchemaUrl(fmt.Sprint("u", u))
+				x.real.(ResourceLogs).Resource().SetDroppedAttributesCount(uint32(d))
 			case "sl":
 				res.name = "set-sl"
-				x.real.(ScopeLogs).Scope().SetName(fmt.Sprint("n", r.IntN(9)))
-				x.real.(ScopeLogs).SetSchemaUrl(fmt.Sprint("u", r.IntN(9)))
+				n, u, ve, d := r.IntN(9), r.IntN(9), r.IntN(9), r.IntN(9)
+				exp.leaf = fmt.Sprintf("sl url=%q name=%q ver=%q dr=%d", fmt.Sprint("u", u), fmt.Sprint("n", n), fmt.Sprint("v", ve), d)
+				sl := x.real.(ScopeLogs)
+				sl.Scope().SetName(fmt.Sprint("n", n))
+				sl.SetSchemaUrl(fmt.Sprint("u", u))
+				sl.Scope().SetVersion(fmt.Sprint("v", ve))
+				sl.Scope().SetDroppedAttributesCount(uint32(d))
 			case "lr":
 				res.name = "set-lr"
 				lr := x.real.(LogRecord)
-				lr.SetTimestamp(pcommon.Timestamp(r.IntN(99)))
-				lr.SetSeverityText(fmt.Sprint("t", r.IntN(9)))
-				lr.SetSeverityNumber(SeverityNumber(r.IntN(20)))
-				lr.SetEventName(fmt.Sprint("e", r.IntN(9)))
-				lr.SetTraceID(pcommon.TraceID{byte(r.IntN(9))})
-				lr.SetSpanID(pcommon.SpanID{byte(r.IntN(9))})
-				lr.SetFlags(LogRecordFlags(r.IntN(4)))
-				lr.SetObservedTimestamp(pcommon.Timestamp(r.IntN(99)))
-				lr.SetDroppedAttributesCount(uint32(r.IntN(9)))
+				ts, ots, sn, st, fl, ti, si, ev, dr := r.IntN(99), r.IntN(99), r.IntN(20), r.IntN(9), r.IntN(4), r.IntN(9), r.IntN(9), r.IntN(9), r.IntN(9)
+				exp.leaf = fmt.Sprintf("lr ts=%d ots=%d sn=%d st=%q fl=%d tid=%s sid=%s ev=%q dr=%d", ts, ots, SeverityNumber(sn),
+					fmt.Sprint("t", st), LogRecordFlags(fl), pcommon.TraceID{byte(ti)}, pcommon.SpanID{byte(si)}, fmt.Sprint("e", ev), dr)
+				lr.SetTimestamp(pcommon.Timestamp(ts))
+				lr.SetSeverityText(fmt.Sprint("t", st))
+				lr.SetSeverityNumber(SeverityNumber(sn))
+				lr.SetEventName(fmt.Sprint("e", ev))
+				lr.SetTraceID(pcommon.TraceID{byte(ti)})
+				lr.SetSpanID(pcommon.SpanID{byte(si)})
+				lr.SetFlags(LogRecordFlags(fl))
+				lr.SetObservedTimestamp(pcommon.Timestamp(ots))
+				lr.SetDroppedAttributesCount(uint32(dr))
 			case "val":
 				res.name = "set-val"
-				res.name = "val-" + t7setVal(r, x.real.(pcommon.Value))
+				var nm string
+				nm, exp = t7setVal(r, x.real.(pcommon.Value), before)
+				res.name = "val-" + nm
 			case "map":
 				m := x.real.(pcommon.Map)
 				key := t7keys[r.IntN(len(t7keys))]
 				switch r.IntN(8) {
 				case 0:
 					res.name = "map-clear"
+					exp.kids = nil
 					m.Clear()
 				case 1:
 					res.name = "map-fromraw"
-					_ = m.FromRaw(map[string]any{key: int64(r.IntN(50)), "z": []any{"q", map[string]any{"w": 1}}})
+					v := r.IntN(50)
+					exp.kids = nil
+					t7refPut(exp, key, &t7node{leaf: fmt.Sprint("Int:", v)})
+					t7refPut(exp, "z", &t7node{leaf: "slice", kids: []*t7node{{leaf: "S", kids: []*t7node{{leaf: "Str:q"},
+						{leaf: "map", kids: []*t7node{{leaf: "M", isMap: true, kids: []*t7node{{leaf: "Int:1", key: "w"}}}}}}}}})
+					_ = m.FromRaw(map[string]any{key: int64(v), "z": []any{"q", map[string]any{"w": 1}}})
 				case 2:
 					res.name = "map-putstr"
-					m.PutStr(key, fmt.Sprint("s", r.IntN(50)))
+					v := r.IntN(50)
+					t7refPut(exp, key, &t7node{leaf: fmt.Sprint("Str:s", v)})
+					m.PutStr(key, fmt.Sprint("s", v))
 				case 3:
 					res.name = "map-putemptymap"
-					m.PutEmptyMap(key).PutInt("n", int64(r.IntN(50)))
+					v := r.IntN(50)
+					t7refPut(exp, key, &t7node{leaf: "map", kids: []*t7node{{leaf: "M", isMap: true, kids: []*t7node{{leaf: fmt.Sprint("Int:", v), key: "n"}}}}})
+					m.PutEmptyMap(key).PutInt("n", int64(v))
 				case 4:
 					res.name = "map-putemptyslice"
+					t7refPut(exp, key, &t7node{leaf: "slice", kids: []*t7node{{leaf: "S", kids: []*t7node{{leaf: "Str:x"}}}}})
 					m.PutEmptySlice(key).AppendEmpty().SetStr("x")
 				case 5:
 					res.name = "map-putemptybytes"
-					m.PutEmptyBytes(key).Append(byte(r.IntN(200)))
+					b := byte(r.IntN(200))
+					t7refPut(exp, key, &t7node{leaf: "bytes:" + hex.EncodeToString([]byte{b})})
+					m.PutEmptyBytes(key).Append(b)
 				case 6:
 					res.name = "map-putempty"
+					t7refPut(exp, key, &t7node{leaf: "Empty:"})
 					m.PutEmpty(key)
 				default:
 					res.name = "map-putint"
-					m.PutInt(key, int64(r.IntN(50)))
+					v := r.IntN(50)
+					t7refPut(exp, key, &t7node{leaf: fmt.Sprint("Int:", v)})
+					m.PutInt(key, int64(v))
 				}
 			default:
 				res.name = "noop-" + x.kind
@@ -646,10 +703,11 @@ func (st *t7state) t7step(r t7rnd, stat map[string]int) (res t7result, ok bool) 
 			return res, false
 		}
 		if !willPanic(res.mutTops...) {
-			refresh(x)
+			exp.key = x.ref.key
+			*x.ref = *exp
 			// overwrite of a scalar by a scalar of the same type after a copy is the case where a shared
 			// one-of wrapper would show: counted so the distribution proves the generator reaches it
-			if before != nil && len(before.kids) == 0 && len(x.ref.kids) == 0 &&
+			if x.kind == "val" && len(before.kids) == 0 && len(x.ref.kids) == 0 &&
 				strings.SplitN(before.leaf, ":", 2)[0] == strings.SplitN(x.ref.leaf, ":", 2)[0] {
 				stat["scalar_overwrite_same_type"]++
 			}
@@ -718,12 +776,25 @@ func TestVerifC07Tree(t *testing.T) {
 						}
 					}
 					switch {
-					case expectPanic:
+					case expectPanic && st.ro[i]:
 						bad = fmt.Sprintf("viol sig=C07/tree/%s-read-only-data-changed step=%d at=%s", res.name, k, d)
+					case expectPanic:
+						bad = fmt.Sprintf("viol sig=C07/tree/%s-panicking-call-changed-mutable-data step=%d at=%s", res.name, k, d)
 					case inTarget:
 						bad = fmt.Sprintf("viol sig=C07/tree/%s-result-differs step=%d at=%s", res.name, k, d)
 					default:
 						bad = fmt.Sprintf("viol sig=C07/tree/%s-changed-unrelated-value step=%d at=%s", res.name, k, d)
+					}
+				}
+			}
+			if bad == "" {
+				// direct separation oracle on the implementation: no element, one-of wrapper or backing array
+				// is reachable twice (also keeps a later op from recursing forever through aliased data)
+				seen := map[uintptr]string{}
+				for i, ld := range st.logs {
+					if dup := t7identities(ld, fmt.Sprint("h", i), seen); dup != "" {
+						bad = fmt.Sprintf("viol sig=C07/tree/%s-aliasing-created step=%d %s", res.name, k, dup)
+						break
 					}
 				}
 			}
@@ -742,4 +813,118 @@ func TestVerifC07Tree(t *testing.T) {
 		out.Linef("end")
 		out.Flush()
 	}
+}
+
+// ---- identity walk (in-package / pdata-internal access): every element pointer, every non-scalar
+// one-of wrapper and every non-empty backing array reachable from a payload, with where it was seen
+
+func t7note(seen map[uintptr]string, p any, where string) string {
+	a := reflect.ValueOf(p).Pointer()
+	if a == 0 {
+		return ""
+	}
+	if w, ok := seen[a]; ok {
+		return fmt.Sprintf("first=%s again=%s", w, where)
+	}
+	seen[a] = where
+	return ""
+}
+
+func t7idVal(av *otlpcommon.AnyValue, where string, seen map[uintptr]string, depth int) string {
+	if depth > 100 {
+		return "too-deep=" + where
+	}
+	switch w := av.Value.(type) {
+	case *otlpcommon.AnyValue_KvlistValue:
+		if d := t7note(seen, w, where+":kvlist"); d != "" {
+			return d
+		}
+		if w.KvlistValue != nil {
+			if d := t7note(seen, w.KvlistValue, where+":kvlist*"); d != "" {
+				return d
+			}
+			return t7idKVs(w.KvlistValue.Values, where, seen, depth+1)
+		}
+	case *otlpcommon.AnyValue_ArrayValue:
+		if d := t7note(seen, w, where+":array"); d != "" {
+			return d
+		}
+		if w.ArrayValue != nil {
+			if d := t7note(seen, w.ArrayValue, where+":array*"); d != "" {
+				return d
+			}
+			vs := w.ArrayValue.Values
+			if len(vs) > 0 {
+				if d := t7note(seen, &vs[0], where+":arr[]"); d != "" {
+					return d
+				}
+			}
+			for i := range vs {
+				if d := t7idVal(&vs[i], fmt.Sprint(where, "/", i), seen, depth+1); d != "" {
+					return d
+				}
+			}
+		}
+	case *otlpcommon.AnyValue_BytesValue:
+		return t7note(seen, w, where+":bytes")
+	}
+	return ""
+}
+
+func t7idKVs(kvs []otlpcommon.KeyValue, where string, seen map[uintptr]string, depth int) string {
+	if len(kvs) > 0 {
+		if d := t7note(seen, &kvs[0], where+":kv[]"); d != "" {
+			return d
+		}
+	}
+	for i := range kvs {
+		if d := t7idVal(&kvs[i].Value, where+"/k"+kvs[i].Key, seen, depth); d != "" {
+			return d
+		}
+	}
+	return ""
+}
+
+func t7idMap(m pcommon.Map, where string, seen map[uintptr]string) string {
+	return t7idKVs(*internal.GetOrigMap(internal.Map(m)), where, seen, 0)
+}
+
+func t7identities(ld Logs, where string, seen map[uintptr]string) string {
+	rls := ld.ResourceLogs()
+	for i := 0; i < rls.Len(); i++ {
+		wi := fmt.Sprint(where, "/", i)
+		if d := t7note(seen, (*rls.orig)[i], wi); d != "" {
+			return d
+		}
+		rl := rls.At(i)
+		if d := t7idMap(rl.Resource().Attributes(), wi+"/0", seen); d != "" {
+			return d
+		}
+		sls := rl.ScopeLogs()
+		for j := 0; j < sls.Len(); j++ {
+			wj := fmt.Sprint(wi, "/1/", j)
+			if d := t7note(seen, (*sls.orig)[j], wj); d != "" {
+				return d
+			}
+			sl := sls.At(j)
+			if d := t7idMap(sl.Scope().Attributes(), wj+"/0", seen); d != "" {
+				return d
+			}
+			lrs := sl.LogRecords()
+			for k := 0; k < lrs.Len(); k++ {
+				wk := fmt.Sprint(wj, "/1/", k)
+				if d := t7note(seen, (*lrs.orig)[k], wk); d != "" {
+					return d
+				}
+				lr := lrs.At(k)
+				if d := t7idVal(internal.GetOrigValue(internal.Value(lr.Body())), wk+"/0", seen, 0); d != "" {
+					return d
+				}
+				if d := t7idMap(lr.Attributes(), wk+"/1", seen); d != "" {
+					return d
+				}
+			}
+		}
+	}
+	return ""
 }
